@@ -75,10 +75,25 @@ def extract_sites(repo=None):
             imports_random = any(isinstance(n, ast.Import) and any(a.name == "random" and a.asname is None for a in n.names)
                                  for n in ast.walk(tree))
 
-            def visit(node, params):
+            def visit(node, params, guards=frozenset()):
                 if isinstance(node, (ast.FunctionDef, ast.AsyncFunctionDef, ast.Lambda)):
                     a = node.args
                     params = params | {x.arg for x in a.args + a.kwonlyargs + a.posonlyargs}
+                    guards = frozenset()
+                if isinstance(node, ast.If):
+                    # `if <parameter> is None:` - the body runs only when the caller passed no generator
+                    t = node.test
+                    g = None
+                    if (isinstance(t, ast.Compare) and isinstance(t.left, ast.Name) and len(t.ops) == 1 and isinstance(t.ops[0], ast.Is)
+                            and isinstance(t.comparators[0], ast.Constant) and t.comparators[0].value is None and t.left.id in params
+                            and t.left.id in ("random", "rng", "seed")):
+                        g = t.left.id
+                    visit(t, params, guards)
+                    for ch in node.body:
+                        visit(ch, params, guards | {g} if g else guards)
+                    for ch in node.orelse:
+                        visit(ch, params, guards)
+                    return
                 if isinstance(node, ast.Call) and isinstance(node.func, ast.Attribute):
                     callee, recv = node.func.attr, node.func.value
                     rt = _recv_text(recv)
@@ -105,12 +120,12 @@ def extract_sites(repo=None):
                     elif callee in NX_RANDOM and isinstance(recv, ast.Name) and recv.id in ("nx", "networkx"):
                         cls = "modelGen" if any(k.arg == "seed" for k in node.keywords) else "globalPy"
                     if cls:
-                        sites.append((rel, node.lineno, callee, rt, cls))
+                        sites.append((rel, node.lineno, callee, rt, cls, bool(guards)))
                 if (isinstance(node, ast.Call) and isinstance(node.func, ast.Name) and node.func.id == "Random"
                         and not node.args and not node.keywords):
-                    sites.append((rel, node.lineno, "Random", "", "fallback"))
+                    sites.append((rel, node.lineno, "Random", "", "fallback", bool(guards)))
                 for ch in ast.iter_child_nodes(node):
-                    visit(ch, params)
+                    visit(ch, params, guards)
 
             visit(tree, frozenset())
     return sites
@@ -123,10 +138,11 @@ def gen_tables():
     L = ["/- GENERATED by harness/c01.py from the current mesa source on every check run. Do not edit. -/",
          "namespace Mesa.Rng", "",
          "inductive Recv where | modelGen | globalPy | globalNp | fallback | unknown", "deriving DecidableEq, Repr", "",
-         "structure Site where", "  file : Nat", "  line : Nat", "  callee : String", "  recv : Recv", "deriving Repr", "",
+         "/-- `guarded`: the call sits in the body of `if <random|rng|seed parameter> is None:` (taken only when the caller passed no generator) -/",
+         "structure Site where", "  file : Nat", "  line : Nat", "  callee : String", "  recv : Recv", "  guarded : Bool", "deriving Repr", "",
          "def siteFiles : List String := [" + ", ".join(json.dumps(f) for f in files) + "]", "",
          "def sites : List Site := ["]
-    L += [f"  ⟨{fidx[f]}, {ln}, {json.dumps(c)}, .{k}⟩," + f"  -- {f}:{ln} {r}.{c}" for (f, ln, c, r, k) in sites]
+    L += [f"  ⟨{fidx[f]}, {ln}, {json.dumps(c)}, .{k}, {'true' if g else 'false'}⟩," + f"  -- {f}:{ln} {r}.{c}" for (f, ln, c, r, k, g) in sites]
     if sites:
         L[-1] = L[-1].replace("⟩,", "⟩ ", 1)
     L += ["]", "", "end Mesa.Rng", ""]
